@@ -59,6 +59,9 @@ CHECKS["C09"] = ("exploration", "differential execution of one bound plan under 
 CHECKS["C10"] = ("exploration", "differential execution of one query under physical configurations (index subsets, zone-map / index / range paths via planner switches, factorized on/off, warm vs cold cache across data changes) against the everything-off configuration; directed cell matrix + random + histories",
   "A directed matrix (15 predicate shapes x 5 literal types x node/edge target x 4 paths) is enumerated on every run, plus random queries under 9 configuration variants covering every subset of indexed properties, factorized vs flat execution of multi-hop chains, and long-lived sessions re-running a text across index/label/property changes versus fresh sessions. The oracle is the same text on the same data with every optimisation removed (hooks planner.no_zone_map / no_index_path / no_range_path).",
   "The baseline is the engine's own generic scan+filter path (its defects are C08's); epoch 0 only, so visibility bypasses of the index paths are not observable here (C01 sees them).", "DESIGN.md §4 C10")
+CHECKS["C17"] = ("exploration", "one logical pipeline executed under pull / push / mixed / parallel (1-16 workers, all morsel and chunk sizes) / spilling configurations and compared with a Vec-based reference; component monitors for morsels, merges, external sort, partitioned state, spill files",
+  "Tables of boundary sizes (0, 1, chunk and morsel boundaries, up to 1e5 rows) with duplicate and null keys and every value type are pushed through chains of 1-4 operators (filter, project, limit/skip, distinct, sort, grouped aggregates) in every execution configuration the crate offers; outputs are compared as multisets (sortedness + multiset for sorts), parallel configurations are repeated to vary schedules, spill directories must be empty afterwards; a directed matrix of operator pairs runs on every invocation and failures are shrunk to skeleton signatures.",
+  "Schedules are varied by repetition only (no scheduler hook); where row identity is undefined (limit over unordered streams) only counts and membership are demanded; parallel/fold.rs (rayon iterators) is not covered.", "DESIGN.md §4 C17")
 NOT_YET = {}
 
 def main():
